@@ -268,6 +268,14 @@ type srcTuple struct {
 	first     byte // autopilot type of its very first heartbeat (a sender may announce another type first)
 }
 
+// MessageVfNotRDS has the id of REQUEST_DATA_STREAM and another definition.
+type MessageVfNotRDS struct {
+	Foo uint32
+	Bar [4]uint8
+}
+
+func (*MessageVfNotRDS) GetID() uint32 { return 66 }
+
 func c16streamRequests(rep *vh.Report, seed uint64, idx int) {
 	if aborted() {
 		return
@@ -280,6 +288,10 @@ func c16streamRequests(rep *vh.Report, seed uint64, idx int) {
 	msgs := []message.Message{&common.MessageHeartbeat{}, &MessageVfUid{}}
 	if withRDS {
 		msgs = append(msgs, &common.MessageRequestDataStream{})
+	} else if r.Chance(1, 2) {
+		// id 66 is there, but it is not the standard REQUEST_DATA_STREAM: nothing can be requested with it
+		msgs = append(msgs, &MessageVfNotRDS{})
+		rep.Count("sr_scenarios_with_nonstandard_id_66", 1)
 	}
 	var trs []*fake.Transport
 	var eps []gomavlib.EndpointConf
